@@ -288,7 +288,12 @@ func (r *Run) apply(op Op) {
 		synctest.Wait()
 		r.API.Flush()
 		if panicked {
-			r.Fail("C10", "panic", "scheduling cycle panicked: %s\n%s", r.Sched.Panic, panicSite(r.Sched.PanicStack))
+			site := panicSite(r.Sched.PanicStack)
+			top := strings.SplitN(site, " ", 2)[0]
+			if i := strings.LastIndex(top, "/"); i >= 0 {
+				top = top[i+1:]
+			}
+			r.Fail("C10", "panic@"+top, "scheduling cycle panicked: %s\n%s", r.Sched.Panic, site)
 			return
 		}
 		ds := r.Sched.Obs.CycleDecisions(r.cycle)
@@ -314,6 +319,8 @@ func (r *Run) apply(op Op) {
 		time.Sleep(time.Duration(op.N) * time.Second)
 	case "recreate":
 		r.recreate()
+	case "inject":
+		r.inject(op.Arg, op.N)
 	default:
 		panic("unknown op " + op.Kind)
 	}
